@@ -23,6 +23,10 @@ func genCase(t *rapid.T) Case {
 	class := map[string]bool{}
 	c.Cfg.SetLimit, c.Cfg.Limit = true, limit
 	nc := rapid.IntRange(1, 8).Draw(t, "ncols")
+	if rapid.IntRange(0, 7).Draw(t, "wide-table?") == 0 {
+		nc = rapid.SampledFrom([]int{31, 32, 33, 40, 64, 65, 100, 255, 256, 1000}).Draw(t, "ncols-wide")
+		class["wide-table(>30 columns)"] = true
+	}
 	cs := &script.CopySpec{Format: int16(rapid.IntRange(0, 1).Draw(t, "format")), MaxReads: -1}
 	switch rapid.IntRange(0, 3).Draw(t, "policy") {
 	case 0:
